@@ -27,3 +27,12 @@ package orbiter
 //@   ensures[C10] istype(reg_impl[old(reg_n)], "keeper/component/forwarder.msgServer") && fwdSrv(reg_impl[old(reg_n)]).Authorizer == box(m.keeper, "*github.com/noble-assets/orbiter/v2/keeper.Keeper") && fwdSrv(reg_impl[old(reg_n)]).Forwarder == m.keeper.forwarder
 //@   ensures[C10] istype(reg_impl[old(reg_n) + 1], "keeper/component/executor.msgServer") && excSrv(reg_impl[old(reg_n) + 1]).Authorizer == box(m.keeper, "*github.com/noble-assets/orbiter/v2/keeper.Keeper") && excSrv(reg_impl[old(reg_n) + 1]).Executor == m.keeper.executor
 //@   ensures[C10] istype(reg_impl[old(reg_n) + 2], "keeper/component/adapter.msgServer") && adpSrv(reg_impl[old(reg_n) + 2]).Authorizer == box(m.keeper, "*github.com/noble-assets/orbiter/v2/keeper.Keeper") && adpSrv(reg_impl[old(reg_n) + 2]).Adapter == m.keeper.adapter
+
+// InjectAdapterControllers (C05): the adapter's route of PROTOCOL_IBC is the IBC adapter built here - the fact the
+// adapter component relies on when it routes an incoming packet by its source protocol.
+//@ macro theAdapter(in) = in.Orbiters.adapter
+//@ func InjectAdapterControllers(in)
+//@   requires[inv] in.Orbiters != nil && in.Orbiters.adapter != nil && in.Orbiters.adapter.logger != nil && in.Orbiters.adapter.router != nil && in.Orbiters.adapter.router.routes != nil
+//@   modifies mapof(in.Orbiters.adapter.router.routes), route_id, in.Orbiters.adapter.router, in.Orbiters.adapter.router.sealed
+//@   loop 0 unroll 2
+//@   ensures[C05] mapHas(theAdapter(in).router.routes, core.PROTOCOL_IBC) && isIBCAdapter(mapGet(theAdapter(in).router.routes, core.PROTOCOL_IBC))
